@@ -96,7 +96,15 @@ def make_pair(case):
     if cplx:
         offx = offx + 1j * rng.standard_normal(fx["p"])
         offy = offy + 1j * rng.standard_normal(fy["p"])
-    return (X + offx) * scale, (Y + offy) * scale
+    X, Y = (X + offx) * scale, (Y + offy) * scale
+    um = case.get("unit_mix")
+    if um:
+        # mixed physical units inside one field: the last half of the features is expressed in a unit 10^-e smaller
+        # (no random draws here: every other case keeps its data)
+        for M, e in ((X, um[0]), (Y, um[1])):
+            if e and M.shape[1] >= 2:
+                M[:, M.shape[1] // 2 :] *= 10.0 ** (-e)
+    return X, Y
 
 
 def _layout(rng, p, nfd, lat, names):
